@@ -201,6 +201,7 @@ var c02OverlapObj = []string{".", ".a", ".a.b", ".a.c", ".a.c[0]", ".a.c[1]", ".
 var c02OverlapArr = []string{".", ".[0]", ".[2]", ".[0:1]", ".[0:2]", ".[1:]", ".[0:2][1]", ".[0:1][1]", ".[]", ".[-1]", ".[1:][0]", ".[3]", ".[0:2][0:1]", ".[1:3][0]", ".[0:2][3]", ".[1:2.5]", ".[:1.2][]", ".[0.5:1.5]"}
 
 // ancestor/descendant chains of depth 3 reached through negative and positive indices (the same location under two spellings)
+var c02OverlapNested = []string{".", ".a", ".a.b", ".a.b.c", ".a.x.b.c", ".a.y.b.c", ".a.x", ".a.x.b", ".a.b.x.c", ".a.b.x", ".a.x.d", ".a.d"}
 var c02OverlapDeep = []string{".", ".[-1]", ".[-1][0]", ".[-1][0][0]", ".[0]", ".[0][0]", ".[0][-1]", ".[-1][-1]", ".[-1][-1][-1]", ".[0][0][0]", ".[-1][0:1]", ".[-1][]", ".a[-1]", ".a[-1][-1]", ".[-2]"}
 
 func c02AllPaths(v any) [][]any {
@@ -332,13 +333,17 @@ func c02Run(c *engine.Ctx) {
 	// closed families of overlapping paths in every order
 	c.Sub("overlaps")
 	type fam struct {
-		atoms []string
-		ins   []any
+		atoms  []string
+		ins    []any
+		bodies []string // bodies of its own (nil: the common ones)
 	}
 	fams := []fam{
-		{c02OverlapObj, []any{univ.J(`{"a":{"b":1,"c":[1,2,3]},"b":2}`), univ.J(`{"a":{"c":[]}}`), nil}},
-		{c02OverlapArr, []any{univ.J(`[1,2,3]`), univ.J(`[[1],[2],[3],[4]]`), univ.J(`[]`), nil}},
-		{c02OverlapDeep, []any{univ.J(`[[[0]]]`), univ.J(`[[[0],[1]],[[2],3]]`), univ.J(`{"a":[[0]]}`)}},
+		{c02OverlapObj, []any{univ.J(`{"a":{"b":1,"c":[1,2,3]},"b":2}`), univ.J(`{"a":{"c":[]}}`), nil}, nil},
+		{c02OverlapArr, []any{univ.J(`[1,2,3]`), univ.J(`[[1],[2],[3],[4]]`), univ.J(`[]`), nil}, nil},
+		{c02OverlapDeep, []any{univ.J(`[[[0]]]`), univ.J(`[[[0],[1]],[[2],3]]`), univ.J(`{"a":[[0]]}`)}, nil},
+		// objects below objects, with update bodies that store their input twice: a later path goes through one of the copies
+		{c02OverlapNested, []any{univ.J(`{"a":{"b":{"c":1},"d":2}}`), univ.J(`{"a":{"b":{"c":[1]}}}`), nil},
+			[]string{"{x: ., y: .}", "(if type == \"object\" then {x: ., y: .} else [.] end)", "[., .]", "{x: ., b: .}"}},
 	}
 	obodies := []string{".", "[.]", "7", "empty", "{c: ., d: .}", "(., 1)", "[., .]"}
 	if quick {
@@ -359,6 +364,9 @@ func c02Run(c *engine.Ctx) {
 					}
 					for _, op := range []string{"|=", "=", "del"} {
 						bodies := obodies
+						if f.bodies != nil {
+							bodies = f.bodies
+						}
 						if op == "del" {
 							bodies = []string{""}
 						}
